@@ -748,7 +748,9 @@ class C15(PropBase):
                     continue
                 lines.append("%s %s\t%s" % ("D" if prof == "debug" else "R", sp[0], sp[1]))
                 idx.append(i)
-            res, dead = vlib.run_lines([exe], lines, timeout=600, mem_gb=8)
+            # the extracted UTF-8 codec / serialiser recurse once per code point of a document: give the driver a large stack
+            res, dead = vlib.run_lines(["bash", "-c", "ulimit -s 2000000 2>/dev/null || ulimit -s unlimited 2>/dev/null; exec " + exe],
+                                       lines, timeout=600, mem_gb=8)
             if dead:
                 raise vlib.CheckFailure("c15 model driver died at %s" % (dead[0],))
             for i, line, r in zip(idx, lines, res):
